@@ -15,6 +15,7 @@ using namespace ig;
 static const char* METHODS[6] = {"Gauss-Legendre", "Gauss-Kronrod", "Tanh-Sinh", "Gauss-Legendre_2", "Adaptive-Simpson", "Trapezoidal"};
 static const char* KEY_AS	= "C13-adaptive-simpson-misses-1e-9";
 static const char* KEY_TR	= "C13-trapezoidal-misses-1e-6";
+static const char* KEY_GL	= "C13-fixed-order-gauss-legendre-misses-1e-9-near-poles";
 
 static int pick_param(Rng& rng, int method, bool explicit_param)
 {
@@ -29,7 +30,7 @@ static int pick_param(Rng& rng, int method, bool explicit_param)
 }
 
 // one 1D call, both orientations, judged against exact / L1
-static void judge_1d(Rng& rng, const std::function<double(double)>& f, double a, double b, ld exact, ld L1, int method, int param, bool regular_family, double max_f2, const std::function<J()>& pj)
+static void judge_1d(Rng& rng, const std::function<double(double)>& f, double a, double b, ld exact, ld L1, int method, int param, bool regular_family, double max_f2, const std::function<J()>& pj, double rho = 0.0)
 {
 	Trace tr;
 	StreamCapture cap;
@@ -38,7 +39,21 @@ static void judge_1d(Rng& rng, const std::function<double(double)>& f, double a,
 	char cl[96];
 	auto det = [&] { return pj().str("method", METHODS[method]).i("method_parameter", param).d("got", got).d("exact", (double) exact).d("integral_of_abs", (double) L1).i("evaluations", (long long) tr.n); };
 	require("integrand-evaluated-inside-limits", tr.inside(a, b), [&] { return det().d("xmin", tr.xmin).d("xmax", tr.xmax); });
-	if(method <= 3)
+	// The two fixed-order rules (30 points by default) converge like rho^(-2n) for an integrand that is analytic inside the Bernstein ellipse of
+	// parameter rho; for the Lorentzian rho follows from its poles c +- i s.  Where rho^(-2n) > 1e-11 no n-point rule can promise 1e-9:
+	// those requests are matched against recorded finding D27 (band (1e-9, 1e-6]), everything else is held to 1e-9.
+	int n_fixed = (method == 0) ? 30 : (method == 3 ? (param == 0 ? 30 : param) : 0);
+	bool fixed_rule_cannot = n_fixed > 0 && rho > 1.0 && std::pow(rho, -2.0 * n_fixed) > 1e-11;
+	if(method <= 3 && fixed_rule_cannot)
+	{
+		ClauseStat& cs = clause("fixed-order-rule-beyond-its-convergence-radius(informational)");
+		cs.n++;
+		if(err > 1e-9 && err <= 1e-6)
+			known_hit(KEY_GL, "fixed-order Gauss-Legendre rule: error between 1e-9 and 1e-6 for a Lorentzian whose poles are close to the interval", det().num("relative_error", err).num("rho", rho));
+		snprintf(cl, sizeof cl, "%s-no-gross-error-near-poles", METHODS[method]);
+		judge(cl, err, 1e-6, det, "C13-fixed-order-rule-gross-error");
+	}
+	else if(method <= 3)
 	{
 		snprintf(cl, sizeof cl, "%s-within-1e-9", METHODS[method]);
 		judge(cl, err, 1e-9, det);
@@ -88,6 +103,17 @@ static void judge_1d(Rng& rng, const std::function<double(double)>& f, double a,
 	}
 }
 
+// Bernstein-ellipse parameter of the Lorentzian 1/(1+((x-c)/s)^2) on [a,b]: poles at t0 = ((c-mid) +- i s)/hw in the mapped variable
+static double lorentz_rho(const Closed& C)
+{
+	if(C.family != 1)
+		return 0.0;
+	double mid = 0.5 * (C.a + C.b), hw = 0.5 * (C.b - C.a);
+	std::complex<double> t0((C.c - mid) / hw, C.s / hw);
+	std::complex<double> r = t0 + std::sqrt(t0 * t0 - 1.0);
+	double m = std::abs(r);
+	return m >= 1 ? m : 1 / m;
+}
 static void case_closed_1d(Rng& rng, uint64_t index)
 {
 	int method = (int) (index % 6);
@@ -103,7 +129,7 @@ static void case_closed_1d(Rng& rng, uint64_t index)
 	hash_param(a), hash_param(b), hash_param(C.k), hash_param(C.om), hash_param(C.ph), hash_param(C.c), hash_param(C.s), hash_param_u(method * 1000 + param);
 	if(rev || C.sign_change)
 		mark_nontrivial();
-	judge_1d(rng, C.f, a, b, exact, C.L1, method, param, false, C.max_f2, pj);
+	judge_1d(rng, C.f, a, b, exact, C.L1, method, param, false, C.max_f2, pj, lorentz_rho(C));
 	if(index % 1999 == 0)
 		sample();
 }
@@ -176,7 +202,7 @@ static void case_witness(Rng& rng, uint64_t index)
 	set_params(pj().str("method", METHODS[w.method]));
 	hash_param_u(index);
 	mark_nontrivial();
-	judge_1d(rng, C.f, C.a, C.b, C.exact, C.L1, w.method, 0, false, C.max_f2, pj);
+	judge_1d(rng, C.f, C.a, C.b, C.exact, C.L1, w.method, 0, false, C.max_f2, pj, lorentz_rho(C));
 }
 
 // ------------------------------------------------------------------------------------------------------------------
